@@ -74,6 +74,7 @@ package value
 // memo fields of lists (items, itemsPresent, iterable), value-stack storage, and objects it allocates itself.
 
 //@ interface-contract Value.ToString
+//@   option evaluates
 //@   option no-impl-check
 //@   requires st.storage != nil && 0 <= st.offs && 0 <= st.size && st.offs+st.size <= len(st.storage.data)
 //@   ensures len(st.storage.data) >= old(len(st.storage.data))
@@ -351,6 +352,7 @@ package value
 //@ predicate frameKeptV(st any) = len(st.storage.data) >= old(len(st.storage.data)) && (forall i in 0..st.offs+st.size :: st.storage.data[i] == old(st.storage.data[i]))
 
 //@ func (l *List) Eval
+//@   option evaluates
 //@   trusted
 //@   requires l != nil && validStack(st)
 //@   ensures[materialised] result == nil ==> l.itemsPresent
@@ -376,6 +378,7 @@ package value
 //@   assigns nothing
 
 //@ func (l *List) ToSlice
+//@   option evaluates
 //@   property C09
 //@   safety C05
 //@   requires l != nil && validStack(st)
@@ -385,6 +388,7 @@ package value
 //@   assigns any List.items, any List.itemsPresent, any List.iterable, any funcGen.stackStorage[Value].data, any []Value
 
 //@ func (l *List) CopyToSlice
+//@   option evaluates
 //@   property C09
 //@   safety C05
 //@   requires l != nil && validStack(st)
@@ -394,6 +398,7 @@ package value
 //@   assigns any List.items, any List.itemsPresent, any List.iterable, any funcGen.stackStorage[Value].data, any []Value
 
 //@ func (l *List) Append
+//@   option evaluates
 //@   property C09, C07
 //@   safety C05
 //@   requires l != nil && validStack(st) && st.size >= 2
@@ -405,6 +410,7 @@ package value
 //@   assigns any List.items, any List.itemsPresent, any List.iterable, any funcGen.stackStorage[Value].data, any []Value, any spareOwned
 
 //@ func (l *List) Size
+//@   option evaluates
 //@   property C07
 //@   safety C05
 //@   requires l != nil && validStack(st)
@@ -414,6 +420,7 @@ package value
 //@   assigns any List.items, any List.itemsPresent, any List.iterable, any funcGen.stackStorage[Value].data, any []Value
 
 //@ func (l *List) Reverse
+//@   option evaluates
 //@   property C09, C07
 //@   safety C05
 //@   requires l != nil && validStack(st)
@@ -425,6 +432,7 @@ package value
 //@   loop 1 invariant (forall k in 0..i :: items[k] == l.items[len(items)-1-k]) && (forall k in j+1..len(items) :: items[k] == l.items[len(items)-1-k]) && (forall k in i..j+1 :: items[k] == l.items[k])
 
 //@ func (l *List) Set
+//@   option evaluates
 //@   property C09, C07
 //@   safety C05
 //@   requires l != nil && validStack(st) && st.size >= 3
@@ -436,12 +444,14 @@ package value
 // windows are views on the receiver's storage: they must be capacity-capped (an append to a window would otherwise
 // overwrite the element of the receiver that follows the window)
 //@ func (l *List) MovingWindow
+//@   option evaluates
 //@   property C09, C07
 //@   requires l != nil && validStack(st)
 //@   loop 1 invariant validStack(st)
 //@   loop 2 invariant (cap(mainList) == 0 || fresh(mainList)) && validStack(st)
 //@   loop 3 invariant (cap(mainList) == 0 || fresh(mainList)) && validStack(st)
 //@ func (l *List) MovingWindowRemove
+//@   option evaluates
 //@   property C09, C07
 //@   requires l != nil && validStack(st)
 //@   loop 1 invariant (cap(mainList) == 0 || fresh(mainList)) && validStack(st)
@@ -485,3 +495,69 @@ package value
 //@   property C07
 //@   ensures[int] typeis(stackArg(st, 0), Int) ==> result1 == nil && result0 == box(Int(argInt(st, 0) * argInt(st, 0)))
 //@   ensures[float] typeis(stackArg(st, 0), Float) ==> result1 == nil && result0 == box(Float(argFloat(st, 0) * argFloat(st, 0)))
+
+// ---------------------------------------------------------------- C08: building a pipeline evaluates nothing
+// A lazy stage constructor only wraps the producer of its receiver in a new producer. Its own body (everything outside
+// the function literals it creates) must not call a function value (an element closure, or the receiver's producer),
+// must not call anything that evaluates list elements and must not call anything of unknown effect. One obligation is
+// generated per offending call; `assert:constructs-lazily` states that there is none.
+//@ func (l *List) Accept
+//@   property C08
+//@   option constructs-lazily
+//@   ensures[a-new-lazy-list] result1 == nil ==> result0 != nil && fresh(result0) && !result0.itemsPresent
+//@ func (l *List) Map
+//@   property C08
+//@   option constructs-lazily
+//@   ensures[a-new-lazy-list] result1 == nil ==> result0 != nil && fresh(result0) && !result0.itemsPresent
+//@ func (l *List) Compact
+//@   property C08
+//@   option constructs-lazily
+//@   ensures[a-new-lazy-list] result1 == nil ==> result0 != nil && fresh(result0) && !result0.itemsPresent
+//@ func (l *List) Cross
+//@   property C08
+//@   option constructs-lazily
+//@   ensures[a-new-lazy-list] result1 == nil ==> result0 != nil && fresh(result0) && !result0.itemsPresent
+//@ func (l *List) Merge
+//@   property C08
+//@   option constructs-lazily
+//@   ensures[a-new-lazy-list] result1 == nil ==> result0 != nil && fresh(result0) && !result0.itemsPresent
+//@ func (l *List) Combine
+//@   property C08
+//@   option constructs-lazily
+//@   ensures[a-new-lazy-list] result1 == nil ==> result0 != nil && fresh(result0) && !result0.itemsPresent
+//@ func (l *List) Combine3
+//@   property C08
+//@   option constructs-lazily
+//@   ensures[a-new-lazy-list] result1 == nil ==> result0 != nil && fresh(result0) && !result0.itemsPresent
+//@ func (l *List) CombineN
+//@   property C08
+//@   option constructs-lazily
+//@   ensures[a-new-lazy-list] result1 == nil ==> result0 != nil && fresh(result0) && !result0.itemsPresent
+//@ func (l *List) IIr
+//@   property C08
+//@   option constructs-lazily
+//@   ensures[a-new-lazy-list] result1 == nil ==> result0 != nil && fresh(result0) && !result0.itemsPresent
+//@ func (l *List) IIrCombine
+//@   property C08
+//@   option constructs-lazily
+//@   ensures[a-new-lazy-list] result1 == nil ==> result0 != nil && fresh(result0) && !result0.itemsPresent
+//@ func (l *List) IIrApply
+//@   property C08
+//@   option constructs-lazily
+//@   ensures[a-new-lazy-list] result1 == nil ==> result0 != nil && fresh(result0) && !result0.itemsPresent
+//@ func (l *List) FSM
+//@   property C08
+//@   option constructs-lazily
+//@   ensures[a-new-lazy-list] result1 == nil ==> typeis(result0, *List) && fresh(unbox(result0, *List)) && !unbox(result0, *List).itemsPresent
+//@ func (l *List) Top
+//@   property C08
+//@   option constructs-lazily
+//@   ensures[a-new-lazy-list] result1 == nil ==> result0 != nil && fresh(result0) && !result0.itemsPresent
+//@ func (l *List) Skip
+//@   property C08
+//@   option constructs-lazily
+//@   ensures[a-new-lazy-list] result1 == nil ==> result0 != nil && fresh(result0) && !result0.itemsPresent
+//@ func (l *List) Number
+//@   property C08
+//@   option constructs-lazily
+//@   ensures[a-new-lazy-list] result1 == nil ==> result0 != nil && fresh(result0) && !result0.itemsPresent
